@@ -55,6 +55,9 @@ class SpinModel(CouplingMPOModel):
         conserve = model_params.get('conserve', 'best', str)
         if conserve == 'best':
             # check how much we can conserve
+            # (`any_nonzero` assumes vanishing default values, so set the non-zero defaults explicitly)
+            for key in ['Jx', 'Jy']:
+                model_params.setdefault(key, 1.0)
             if not model_params.any_nonzero([('Jx', 'Jy'), 'hx', 'hy', 'E'], 'check Sz conservation'):
                 conserve = 'Sz'
             elif not model_params.any_nonzero(['hx', 'hy'], 'check parity conservation'):
